@@ -47,6 +47,10 @@ pub enum BCond {
 pub struct BRule {
     pub cond: BCond,
     pub sets: Vec<(u8, u8)>,
+    /// injected fault: after its assignments the rule calls a method on an object that does not
+    /// exist, so executing it returns an error midway
+    #[serde(default)]
+    pub fails: bool,
 }
 
 #[derive(Clone, Debug, Serialize, Deserialize, PartialEq)]
@@ -60,6 +64,9 @@ pub enum BOp {
     /// a caller fact no rule or goal reads is removed / asserted again
     RemoveAux,
     AssertAux(u8),
+    /// the caller replaces a fact by a value of another type that prints alike (1 -> "1", true -> "true");
+    /// C11 only: its oracles compare engines with each other and need no typed-core reference
+    Retype(u8),
     /// with an attached RETE engine: a fact is inserted / the n-th inserted fact retracted there
     EngineInsert(u8),
     EngineRetract(u8),
@@ -206,11 +213,14 @@ fn is_conjunctive(c: &BCond) -> bool {
 fn build_kb(types: &[Ty], rules: &[BRule]) -> KnowledgeBase {
     let kb = KnowledgeBase::new("bwd");
     for (i, r) in rules.iter().enumerate() {
-        let actions = r
+        let mut actions: Vec<ActionType> = r
             .sets
             .iter()
             .map(|(f, l)| ActionType::Set { field: fkey(*f), value: lit_value(types[*f as usize % NF], *l) })
             .collect();
+        if r.fails {
+            actions.push(ActionType::MethodCall { object: "Ghost".to_string(), method: "poke".to_string(), args: vec![] });
+        }
         let _ = kb.add_rule(Rule::new(format!("R{i}"), cond_group(types, &r.cond), actions));
     }
     kb
@@ -338,7 +348,7 @@ fn min_height(types: &[Ty], rules: &[BRule], start: &Snapshot, goal: &BAtom) -> 
     loop {
         let mut changed = false;
         for r in rules {
-            if !is_conjunctive(&r.cond) {
+            if !is_conjunctive(&r.cond) || r.fails {
                 continue;
             }
             let mut ats = Vec::new();
@@ -515,12 +525,37 @@ fn run_search(
     }
     facts.set("Aux.n", Value::Integer(0));
     let mut queries = 0;
+    if rules.iter().any(|r| r.fails) {
+        obs.count("fault.rule_action_errors_midway");
+    }
     let mut asked: BTreeSet<String> = BTreeSet::new();
     for (step, op) in ops.iter().enumerate() {
         match op {
             BOp::SetFact(f, l) => {
                 facts.set(&fkey(*f), lit_value(types[*f as usize % NF], *l));
                 obs.count("probe.caller_changed_a_fact");
+            }
+            BOp::Retype(f) => {
+                if prop == "C11" {
+                    let k = fkey(*f);
+                    let newv = match facts.get(&k) {
+                        Some(Value::Integer(i)) => Some(Value::String(i.to_string())),
+                        Some(Value::Boolean(b)) => Some(Value::String(b.to_string())),
+                        Some(Value::String(s)) => Some(match s.parse::<i64>() {
+                            Ok(i) => Value::Integer(i),
+                            Err(_) => match s.as_str() {
+                                "true" => Value::Boolean(true),
+                                "false" => Value::Boolean(false),
+                                _ => Value::String(format!("{s}")),
+                            },
+                        }),
+                        _ => None,
+                    };
+                    if let Some(v) = newv {
+                        facts.set(&k, v);
+                        obs.count("probe.fact_retyped_same_rendering");
+                    }
+                }
             }
             BOp::RemoveAux => {
                 facts.remove("Aux.n");
@@ -763,7 +798,8 @@ fn gen_search(rng: &mut Rng, hash_seed: u64, with_negation: bool) -> BwdTrace {
                 (f, if horn { assigned_val[f as usize] } else { rng.below(3) as u8 })
             })
             .collect();
-        rules.push(BRule { cond, sets });
+        let fails = rng.chance(1, 10);
+        rules.push(BRule { cond, sets, fails });
     }
     let ngoals = 1 + rng.usize(3);
     let goals = (0..ngoals)
@@ -780,7 +816,7 @@ fn gen_search(rng: &mut Rng, hash_seed: u64, with_negation: bool) -> BwdTrace {
     let nops = 1 + rng.usize(6);
     let mut ops = Vec::new();
     for _ in 0..nops {
-        let w = rng.weighted(&[55, 20, 5, 5, if attach_rete { 8 } else { 0 }, if attach_rete { 6 } else { 0 }]);
+        let w = rng.weighted(&[55, 20, 5, 5, if attach_rete { 8 } else { 0 }, if attach_rete { 6 } else { 0 }, if with_negation { 8 } else { 0 }]);
         ops.push(match w {
             0 => {
                 if with_negation && rng.chance(1, 4) {
@@ -793,7 +829,8 @@ fn gen_search(rng: &mut Rng, hash_seed: u64, with_negation: bool) -> BwdTrace {
             2 => BOp::RemoveAux,
             3 => BOp::AssertAux(rng.below(3) as u8),
             4 => BOp::EngineInsert(rng.below(3) as u8),
-            _ => BOp::EngineRetract(rng.below(4) as u8),
+            5 => BOp::EngineRetract(rng.below(4) as u8),
+            _ => BOp::Retype(rng.below(NF as u64) as u8),
         });
     }
     ops.push(BOp::Query(rng.below(3) as u8));
@@ -819,11 +856,11 @@ impl World for BwdWorld {
         "bwd"
     }
     fn info(&self, prop: &str) -> WorldInfo {
-        let mut probes = vec!["probe.alt_hash_seed_query", "probe.returned_facts_differ_between_hash_seeds", "probe.history_of_two_or_more_queries", "probe.caller_changed_a_fact", "probe.same_query_asked_again", "probe.retraction_in_attached_engine"];
+        let mut probes = vec!["fault.rule_action_errors_midway", "probe.alt_hash_seed_query", "probe.returned_facts_differ_between_hash_seeds", "probe.history_of_two_or_more_queries", "probe.caller_changed_a_fact", "probe.same_query_asked_again", "probe.retraction_in_attached_engine"];
         match prop {
             "C09" => probes.extend(["probe.provable_query", "probe.complete_clause_applicable", "probe.derivation_of_height_2_or_more", "probe.derivation_deeper_than_max_depth"]),
             "C10" => probes.extend(["probe.unprovable_query", "probe.failed_query_with_derivable_intermediate_facts", "probe.nested_frame_committed", "probe.frame_rolled_back"]),
-            "C11" => probes.extend(["probe.negated_query"]),
+            "C11" => probes.extend(["probe.negated_query", "probe.fact_retyped_same_rendering"]),
             _ => {}
         }
         WorldInfo {
@@ -961,16 +998,19 @@ impl World for BwdWorld {
                     let mut alts: Vec<BRule> = Vec::new();
                     match &r.cond {
                         BCond::And(a, b) | BCond::Or(a, b) => {
-                            alts.push(BRule { cond: (**a).clone(), sets: r.sets.clone() });
-                            alts.push(BRule { cond: (**b).clone(), sets: r.sets.clone() });
+                            alts.push(BRule { cond: (**a).clone(), sets: r.sets.clone(), fails: r.fails });
+                            alts.push(BRule { cond: (**b).clone(), sets: r.sets.clone(), fails: r.fails });
                         }
                         _ => {}
+                    }
+                    if r.fails {
+                        alts.push(BRule { cond: r.cond.clone(), sets: r.sets.clone(), fails: false });
                     }
                     if r.sets.len() > 1 {
                         for k in 0..r.sets.len() {
                             let mut s = r.sets.clone();
                             s.remove(k);
-                            alts.push(BRule { cond: r.cond.clone(), sets: s });
+                            alts.push(BRule { cond: r.cond.clone(), sets: s, fails: r.fails });
                         }
                     }
                     for b in alts {
